@@ -28,6 +28,15 @@ def build(c):
     vd = c.get("vdims")
     f = df.Field(mesh, nvdim=c["nvdim"], value=arr, valid=valid, unit=c.get("unit"), vdims=vd,
                  vdim_mapping=c.get("vmap"), dtype=(int if c.get("int_dtype") else None))
+    if c.get("pre"):
+        # the mesh is used (cell size, a first derivative) and then rescaled IN PLACE: a later derivative
+        # must use the cell size the mesh has now
+        _ = f.mesh.cell, f.mesh.dV
+        f.diff(f.mesh.region.dims[c["ax"]], order=c["order"])
+        if c["pre"] == "mesh.scale":
+            f.mesh.scale(2.0, inplace=True)
+        else:
+            f.mesh.region.scale(2.0, inplace=True)
     return f
 
 
@@ -52,10 +61,11 @@ def line_case(L, mask, order, periodic, rng, restrict=True, poly=None):
         vals = [poly_eval(poly, x0 + (j + F(1, 2)) * h) for j in range(L)]
     # integer-typed fields (integer data): the derivative must not be truncated to the operand's dtype
     int_dtype = poly is None and mag == 1 and rng.random() < 0.25
+    pre = rng.choice([None, None, None, "mesh.scale", "region.scale"]) if poly is None else None
     return dict(kind="line", sh=[L], nvdim=1, ax=0, order=order, cell=[g.qs(h)], p1=[g.qs(x0)],
                 periodic_axes=[0] if periodic else [], restrict=restrict,
                 vals=[g.qs(v) for v in vals], valid=[bool(b) for b in mask], poly=poly, int_dtype=int_dtype,
-                mag=g.qs(mag))
+                mag=g.qs(mag), pre=pre)
 
 
 def nd_case(rng, tier):
@@ -149,7 +159,7 @@ def run_case(c):
     st3, r3 = attempt(lambda: f.diff(dim, order=order, restrict2valid=c["restrict"]))
     if st3 != "ok" or not np.array_equal(r3.array, out) or not np.array_equal(f.valid, orig_valid):
         rec["oracle"].append("repeated-call-differs")
-    h = F(c["cell"][ax])
+    h = F(c["cell"][ax]) * (2 if c.get("pre") else 1)
     vals = np.array([F(x) for x in c["vals"]], dtype=object).reshape(*sh, c["nvdim"])
     valid = np.array(c["valid"], dtype=bool).reshape(*sh)
     eff_valid = valid if c["restrict"] else np.ones_like(valid)
@@ -232,7 +242,7 @@ def run_case(c):
                     rec["tags"].append("C04-periodic-masked-seam")
     rec["oracle"] = sorted(set(rec["oracle"]))
     per_b = periodic
-    coq = (f'CDiff {g.nl(sh)} {g.nat(c["nvdim"])} {g.nat(ax)} {g.nat(order)} {g.q(c["cell"][ax])} '
+    coq = (f'CDiff {g.nl(sh)} {g.nat(c["nvdim"])} {g.nat(ax)} {g.nat(order)} {g.q(h)} '
            f'{g.b(per_b)} {g.b(c["restrict"])} {g.ql(c["vals"])} {g.bl(c["valid"])} {g.ql(obs["array"])}')
     nruns = len(runs_of(eff_valid.reshape(-1))) if len(sh) == 1 else -1
     key = (f'{c["kind"]}/{tuple(sh)}/{c["nvdim"]}/{ax}/{order}/{per_b}/{c["restrict"]}/'
